@@ -2,7 +2,7 @@
 """Runs the real `2a-emulator interactive` main loop under a pseudo terminal.
 
 usage: pty_session.py <binary> <cwd> <cols>x<rows> <wait_s> [--program FILE] -- <key> [<key> ...]
-Keys: ^a ^w ^e ^r ^l ^c, ENTER, TAB, UP, DOWN, LEFT, RIGHT, WAIT:<seconds>, RESIZE:<cols>x<rows>, or literal text.
+Keys: ^a ^w ^e ^r ^l ^c, ENTER, TAB, UP, DOWN, LEFT, RIGHT, WAIT:<seconds>, RESIZE:<cols>x<rows>, MOUSE, BURST:<text with \\r escapes>, or literal text.
 Prints `EXIT <status>` (status of the child as a shell would report it, or `timeout`)."""
 import os, pty, sys, time, select, struct, fcntl, termios, signal
 
@@ -64,6 +64,14 @@ def main():
             except OSError:
                 pass
             drain(0.3); continue
+        if k == 'MOUSE':
+            # SGR mouse reports (press, drag, release, wheel): a terminal sends them whether the program asked or not
+            os.write(fd, b'\x1b[<0;10;10M\x1b[<32;11;10M\x1b[<0;11;10m\x1b[<64;10;10M')
+            drain(0.2); continue
+        if k.startswith('BURST:'):
+            # several keys in ONE write (a paste, or a fast typist between two frames); \r = Enter, \x03 = CTRL+C
+            os.write(fd, k[6:].encode().decode('unicode_escape').encode('latin-1'))
+            drain(0.2); continue
         if len(k) == 2 and k[0] == '^':
             data = bytes([ord(k[1].lower()) - 96])
         else:
